@@ -419,6 +419,8 @@ def replay_c08_inv(args):
     m = args.get("model") or {}
     if "a" in m and "n" in m:
         cases.append((int(m["a"]), int(m["n"])))
+    for a_, n_ in args.get("candidates", []):
+        cases.append((int(a_), int(n_)))
     for n in (2, 3, 5, 7, 11, 13, 17, 19, 23, 29, 31, 37, 41, 43, 101, 127):
         rng = range(-2 * n, 2 * n + 1) if which == "prime_field_inv" else range(0, n)
         cases += [(a, n) for a in rng]
@@ -440,3 +442,43 @@ def replay_c08_inv(args):
         if v != exp:
             bad.append((a, n, v, exp))
     return (len(bad) > 0), "c08_inv %s: %d mismatches; first %s" % (which, len(bad), str(bad[:2])[:300])
+
+
+def replay_c08_fqp_inv(args):
+    K = _fq_class(args["impl"], args["curve"], "FQ%d" % args["deg"])
+    p, deg = K.field_modulus, args["deg"]
+    rng = random.Random(21)
+    S = args.get("support") or list(range(deg))
+    pts = args.get("point") or {}
+    bad = []
+    elems = []
+    if pts:
+        elems.append([int(pts.get("a%d" % i, 0)) % p if i in S else 0 for i in range(deg)])
+    for _ in range(5):
+        elems.append([rng.randrange(p) if i in S else 0 for i in range(deg)])
+    for mask in range(1, 2 ** min(len(S), 3)):
+        e = [0] * deg
+        for j, i in enumerate(S[:3]):
+            if mask >> j & 1:
+                e[i] = rng.randrange(1, p)
+        elems.append(e)
+    elems.append([0] * deg)
+    one = [1] + [0] * (deg - 1)
+    for a in elems:
+        x = K(a)
+        try:
+            xi = x.inv()
+            if any(a):
+                if _ints(x * xi) != one:
+                    bad.append(("x*inv(x)", a))
+                y = K([rng.randrange(p) for _ in range(deg)])
+                if _ints((y / x) * x) != _ints(y):
+                    bad.append(("(y/x)*x", a))
+            else:
+                if _ints(xi) != [0] * deg:
+                    bad.append(("inv(0)", a))
+            if any(not (0 <= c < p) for c in _ints(xi)):
+                bad.append(("range", a))
+        except Exception as e:
+            bad.append((repr(e), a))
+    return (len(bad) > 0), "c08_fqp_inv %s: %d mismatches; first %s" % ({k: v for k, v in args.items() if k != "point"}, len(bad), str(bad[:1])[:300])
